@@ -84,6 +84,24 @@ func (p monPlan) monitor() *client.Monitor {
 	return m
 }
 
+// monitorVia: the same monitor built through the public constructors (NewMonitor, WithTable with pointers to
+// the fields of a model), which is how applications ask for tables and columns
+func (p monPlan) monitorVia(c client.Client, db *DB) *client.Monitor {
+	ts := make([]string, 0, len(p.Cols))
+	for t := range p.Cols {
+		ts = append(ts, t)
+	}
+	sort.Strings(ts)
+	var opts []client.MonitorOption
+	for _, t := range ts {
+		m := db.NewModel(t, "", nil)
+		opts = append(opts, client.WithTable(m, fieldPtrs(db, t, m, p.Cols[t])...))
+	}
+	mon := c.NewMonitor(opts...)
+	mon.Method = p.Method
+	return mon
+}
+
 func genMonPlans(r *Run, ts TxnSchema, nT int) []monPlan {
 	rng := r.Rng
 	var plans []monPlan
@@ -160,6 +178,8 @@ func runC01(r *Run) {
 	if r.Tier == "thorough" {
 		nHist = 600
 	}
+	// servers that do not know the newer monitor methods
+	c01Fallback(r, nHist/4)
 	for h := 0; h < nHist; h++ {
 		ts := genTxnSchema(r.Rng, h%2 == 0)
 		nT := 4 + r.Rng.Intn(7)
@@ -329,8 +349,13 @@ func c01History(r *Run, h int, ts TxnSchema, nT int, plans []monPlan, txns []Txn
 			}
 			startAt := len(mc.trace)
 			mc.trace = append(mc.trace, map[string]interface{}{"a": "start"})
+			mon := p.monitor()
+			if (h+ti)%2 == 0 {
+				mon = p.monitorVia(mc.c, mc.db)
+				count("monitor-built-by-options")
+			}
 			go func() {
-				_, err := mc.c.Monitor(ctx, p.monitor())
+				_, err := mc.c.Monitor(ctx, mon)
 				done <- err
 			}()
 			if pp != nil {
